@@ -778,7 +778,6 @@ class MessageManager(ClientLike):
             data = cd.MDF_MESSAGE_TRAFFIC()
             now = time.perf_counter()
             sub_seqno = 1
-            nsent = 0
             i = -1
             for n, (mt, count) in enumerate(self.traffic_counter.items()):
                 data.seqno = self.traffic_seqno
@@ -790,17 +789,18 @@ class MessageManager(ClientLike):
                 data.msg_type[i] = mt
                 data.msg_count[i] = count
 
-                if (n % cd.MESSAGE_TRAFFIC_SIZE) == 0:
-                    nsent = n
+                # Send each sub-message once it is full
+                if i == cd.MESSAGE_TRAFFIC_SIZE - 1:
                     self.send_message(data)
                     sub_seqno += 1
+                    i = -1
 
-            # Send any remaining
+            # Send any remaining entries, marking the unused slots
             if i >= 0:
                 i += 1
-                if nsent < len(self.traffic_counter):
-                    data.msg_type[i:] = [-1 for _ in range(cd.MESSAGE_TRAFFIC_SIZE - i)]
-                    self.send_message(data)
+                data.msg_type[i:] = [-1 for _ in range(cd.MESSAGE_TRAFFIC_SIZE - i)]
+                data.msg_count[i:] = [0 for _ in range(cd.MESSAGE_TRAFFIC_SIZE - i)]
+                self.send_message(data)
 
         self.traffic_counter.clear()
         self.traffic_start = now
